@@ -435,7 +435,7 @@ func handleIncr(params internal.HandlerFuncParams) ([]byte, error) {
 	}
 
 	// Set the new incremented value
-	if err := params.SetValues(params.Context, map[string]interface{}{key: fmt.Sprintf("%d", newValue)}); err != nil {
+	if err := params.SetValues(params.Context, map[string]interface{}{key: int(newValue)}); err != nil {
 		return nil, err
 	}
 
@@ -485,7 +485,7 @@ func handleDecr(params internal.HandlerFuncParams) ([]byte, error) {
 	}
 
 	// Set the new incremented value
-	if err := params.SetValues(params.Context, map[string]interface{}{key: fmt.Sprintf("%d", newValue)}); err != nil {
+	if err := params.SetValues(params.Context, map[string]interface{}{key: int(newValue)}); err != nil {
 		return nil, err
 	}
 
@@ -540,7 +540,7 @@ func handleIncrBy(params internal.HandlerFuncParams) ([]byte, error) {
 	}
 
 	// Set the new incremented value
-	if err := params.SetValues(params.Context, map[string]interface{}{key: fmt.Sprintf("%d", newValue)}); err != nil {
+	if err := params.SetValues(params.Context, map[string]interface{}{key: int(newValue)}); err != nil {
 		return nil, err
 	}
 
@@ -598,7 +598,7 @@ func handleIncrByFloat(params internal.HandlerFuncParams) ([]byte, error) {
 	}
 
 	// Set the new incremented value
-	if err := params.SetValues(params.Context, map[string]interface{}{key: fmt.Sprintf("%g", newValue)}); err != nil {
+	if err := params.SetValues(params.Context, map[string]interface{}{key: internal.AdaptValue(fmt.Sprintf("%g", newValue))}); err != nil {
 		return nil, err
 	}
 
@@ -656,7 +656,7 @@ func handleDecrBy(params internal.HandlerFuncParams) ([]byte, error) {
 	}
 
 	// Set the new incremented value
-	if err := params.SetValues(params.Context, map[string]interface{}{key: fmt.Sprintf("%d", newValue)}); err != nil {
+	if err := params.SetValues(params.Context, map[string]interface{}{key: int(newValue)}); err != nil {
 		return nil, err
 	}
 
